@@ -1,8 +1,8 @@
 package main
 
 import (
-	"bytes"
 	"bufio"
+	"bytes"
 	"encoding/binary"
 	"encoding/json"
 	"fmt"
@@ -342,6 +342,11 @@ func init() {
 			} else if err != nil {
 				obs = "ERR"
 			}
+			if strings.HasPrefix(cs.Extra, "long-string") {
+				// and into a fresh 16-byte buffer (growth steps inside one call, pool-independent)
+				out2, err2, pan2 := freshEncode(val, encOpts(cs.Opts))
+				obs += fmt.Sprintf("|fresh:%d,%x,%v,%v", len(out2), fnv64(string(out2)), err2 != nil, pan2 != "")
+			}
 			return emit(func() string { return string(ev.J(cs)) }, obs)
 		})
 	}}
@@ -417,7 +422,7 @@ func init() {
 			var str string
 			err := sonic.UnmarshalString(`"`+s+`"`, &str)
 			fmt.Fprintf(&b, "|%q,%v|", str, err == nil)
-			n, err := sonic.GetFromString(`{"k":"` + s + `"}`, "k")
+			n, err := sonic.GetFromString(`{"k":"`+s+`"}`, "k")
 			if err == nil {
 				v, e := n.String()
 				fmt.Fprintf(&b, "%q,%v", v, e == nil)
